@@ -997,7 +997,18 @@ pub fn generate(rng: &mut Rng, cfg: &GenCfg) -> Option<Program> {
     let mut count = base;
     for _ in 0..n_ops {
         let op = gen_op(rng, cfg);
+        // a row with a public input directly followed by (or following) the same selector tuple
+        // without one: descriptions that share one polynomial between the two kinds of rows
+        let twin = match &op {
+            Op::EvalOut { q, a, b, d, pi } if q[3] != Sc::zero() && rng.chance(1, 4) => Some(Op::EvalOut { q: *q, a: *a, b: *b, d: *d, pi: !*pi }),
+            Op::GateAdd { l, r, f, c, a, b, d, pi } if rng.chance(1, 4) => Some(Op::GateAdd { l: *l, r: *r, f: *f, c: *c, a: *a, b: *b, d: *d, pi: !*pi }),
+            Op::GateMul { m, f, c, a, b, d, pi } if rng.chance(1, 4) => Some(Op::GateMul { m: *m, f: *f, c: *c, a: *a, b: *b, d: *d, pi: !*pi }),
+            _ => None,
+        };
         prog.ops.push(op);
+        if let Some(t) = twin {
+            prog.ops.push(t);
+        }
         // a raw zero row needs a zero row after it
         if matches!(prog.ops.last(), Some(Op::RawZero { .. })) {
             prog.ops.push(Op::Filler(1));
